@@ -151,6 +151,7 @@ RULES = [
     ("X-PHASES", "clause order and phase flags of Parser::parse; WHERE shorthand window [shared]", lambda ctx: __import__("extra").parser_phases(ctx)),
     ("X-BUFFER", "buffering predicates (ordered or aggregate) and recursive expression predicates [shared]", lambda ctx: __import__("extra").buffering_predicates(ctx)),
     ("X-PIPELINE", "the per-entry pipeline of check_file evaluated on its scenario table (filter, count, row, buffer key, separator, closed output) [shared]", lambda ctx: __import__("cfile").pipeline(ctx)),
+    ("C08-R4", "inside a group, function arguments are evaluated over that group's rows (nested aggregates)", lambda ctx: __import__("gcev").nested_scope(ctx)),
 ]
 
 EXPLANATION = (
